@@ -35,7 +35,7 @@ NOTE = "bounded exploration (constants in the evidence file: design_runs); the G
 m = {"version": 1, "setup_cmd": "./setup.sh",
      "hooks": {"guard": "verif", "enable": "go build -tags verif (harness module, replace github.com/junioryono/godi/v4 => /repo)",
                "baseline_off_cmd": "for m in . chi echo fiber gin http; do (cd /repo/$m && GOFLAGS=-mod=mod GOPROXY=off go test -vet=off -count=1 -timeout 25m ./...) || exit 1; done",
-               "source_commits": ["035bab5", "03d21fb", "6a20b54"], "add_only": True},
+               "source_commits": ["035bab5", "03d21fb", "6a20b54", "775a279"], "add_only": True},
      "engines": [
          {"name": "tlc-design", "path": "spec/*MC.tla spec/ContainerSweep.tla", "kind_free_text": "exhaustive TLC runs of the TLA+ design models (properties as invariants / action properties); they also emit the replayable scenarios"},
          {"name": "replay-harness-web", "path": "harness-web/", "kind_free_text": "Go harness executing request scenarios on the five web integrations built from /repo's working tree"},
